@@ -155,6 +155,35 @@ func TestMergeArrangements(t *testing.T) {
 			}
 		}
 
+		// (c') two flush windows with a consumer that lags: the batches are split between the windows, the first window's slice
+		// is merged only after the second window's batches were received and flushed. How batches group into windows and
+		// when the consumer runs must not change the total.
+		{
+			sink2 := make(chan []*gostatsd.MetricMap, 4)
+			mc2 := gostatsd.NewMetricConsolidator(slots, false, time.Hour, sink2)
+			cut := rapid.IntRange(0, nmaps).Draw(t, "first-window")
+			pm2 := permuted()
+			for i := 0; i < cut; i++ {
+				mc2.ReceiveMetricMap(pm2[i])
+			}
+			mc2.Flush()
+			first := <-sink2 // handed over, not merged yet
+			for i := cut; i < nmaps; i++ {
+				if asPoints {
+					var pts []*gostatsd.Metric
+					for _, m := range family[perm[i]] {
+						pts = append(pts, gen.CopyMetric(m))
+					}
+					mc2.ReceiveMetrics(pts)
+				} else {
+					mc2.ReceiveMetricMap(pm2[i])
+				}
+			}
+			mc2.Flush()
+			second := <-sink2
+			check(t, "consolidator-two-windows", gostatsd.MergeMaps([]*gostatsd.MetricMap{gostatsd.MergeMaps(first), gostatsd.MergeMaps(second)}), want)
+		}
+
 		// (d) aggregator
 		agg := statsd.NewMetricAggregator(nil, 0, 0, 0, 0, gostatsd.TimerSubtypes{}, 0)
 		for _, m := range permuted() {
